@@ -765,6 +765,9 @@ func c13enc(r *Run, rng *Rng, pw string, n, k int, nWrong int) {
 		if third, terr := c13Mscfb(enc); terr != nil || !bytes.Equal(third["EncryptedPackage"], doc.streams["EncryptedPackage"]) || !bytes.Equal(third["EncryptionInfo"], doc.streams["EncryptionInfo"]) {
 			structSig, structWhat = "cfb:mscfb-vs-ref", fmt.Sprintf("mscfb and the reference reader disagree on Encrypt's output (%v)", terr)
 		}
+		if verr := c13verifier(doc.streams["EncryptionInfo"], pw); verr != nil {
+			structSig, structWhat = "enc:verifier", "the EncryptionInfo written by Encrypt does not verify under the password with an independent key derivation: "+verr.Error()
+		}
 		if pkg >= 8 && binary.LittleEndian.Uint64(doc.streams["EncryptedPackage"][:8]) != uint64(n) {
 			structSig, structWhat = "enc:length-prefix", "EncryptedPackage does not start with the plaintext length"
 		}
@@ -1257,6 +1260,17 @@ func runC13(r *Run, rng *Rng, replay string) {
 		c13enc(r, rng, p, 5000, 0, 0)
 	}
 	mark("enc")
+	// 4b. agile segment loop (synthesised conformant documents) and password -> UTF-16LE
+	for i, S := range c13agileSizes(rng, thorough) {
+		c13agile(r, S, i%7)
+	}
+	mark("agile")
+	for _, p := range pws {
+		c13u16(r, p)
+	}
+	for _, p := range []string{"", "\xff", "a\xc3", "\xed\xa0\x80", "\xf4\x90\x80\x80", "ok\x00", "\U00010000", "\uffff", "\ud7ff\ue000"} {
+		c13u16(r, p)
+	}
 	// 5. save with password / OpenReader
 	nOpen := 14
 	if thorough {
@@ -1317,6 +1331,15 @@ func c13replay(r *Run, rng *Rng, path string) {
 		case "big":
 			if len(w) >= 2 {
 				c13big(r, ints(w[2:]))
+			}
+		case "agile":
+			if len(w) == 3 {
+				v := ints(w[1:])
+				c13agile(r, v[0], v[1])
+			}
+		case "u16":
+			if len(w) == 2 {
+				c13u16(r, unhx(w[1]))
 			}
 		case "enc":
 			if len(w) == 4 {
